@@ -114,6 +114,7 @@ def dispatch (op : String) (args : List String) : String :=
   | "gtosubtree" | "gcutenter" | "gcutdepth" | "gcutleave" | "gcutleaveset" | "gcuttype" | "gcutorder" => AlgoRun.handleCut op args
   | "gcuttip" => AlgoRun.handleShortTip op args
   | "gsubimpl" => AlgoRun.handleSubImpl args
+  | "gtosubfull" | "ggetsubfull" | "gtosubdep" => AlgoRun.handleSubFull op args
   | "gsingleroot" => AlgoRun.handleSingleRoot args
   | "gnearest" => AlgoRun.handleNearest args
   | "greadfix" => AlgoRun.handleReadFix args
